@@ -37,6 +37,8 @@ class ResultSyncIqProtocolEntity(SyncIqProtocolEntity):
         self.invalidNumbers = invalidNumbers
         self.wait = int(wait) if wait is not None else None
         self.version = version
+        # containers the stanza carried although they were empty (set by fromProtocolTreeNode)
+        self.emptyContainers = ()
 
 
     def __str__(self):
@@ -63,13 +65,13 @@ class ResultSyncIqProtocolEntity(SyncIqProtocolEntity):
         if self.wait is not None:
             syncNode.setAttribute("wait", str(self.wait))
 
-        if len(outUsers):
+        if len(outUsers) or "out" in self.emptyContainers:
             syncNode.addChild(ProtocolTreeNode("out", children = outUsers))
 
-        if len(inUsers):
+        if len(inUsers) or "in" in self.emptyContainers:
             syncNode.addChild(ProtocolTreeNode("in", children = inUsers))
 
-        if len(invalidUsers):
+        if len(invalidUsers) or "invalid" in self.emptyContainers:
             syncNode.addChildren([ProtocolTreeNode("invalid", children = invalidUsers)])
 
         return node
@@ -101,5 +103,6 @@ class ResultSyncIqProtocolEntity(SyncIqProtocolEntity):
             invalidUsers,
             syncNode.getAttributeValue("wait")
             )
+        entity.emptyContainers = tuple(n.tag for n in (outNode, inNode, invalidNode) if n is not None and not n.getAllChildren())
    
         return entity
